@@ -1,14 +1,10 @@
-(* GENERATED by translators/c48_src.py from tornado/auth.py -- do not edit *)
-From Coq Require Import List NArith String.
-Import ListNotations.
-From TV Require Import C48.Model C48.Ast.
-Definition src_escape : sexp :=
-  (EQuote (EUtf8 EVal) [126]%N).
-Definition src_key10 : list sexp :=
-  [(EUtf8 (EEscape (ESecret Consumer))); (EUtf8 (EIfToken (EEscape (ESecret Token)) EEmpty))].
-Definition src_key10_sep : N :=
-  38%N.
-Definition src_rest_signature : string :=
+(* C48 -- the source texts (normalised by ast.unparse) of the parts of tornado/auth.py that the model of
+   C48/Model.v was written from and that are NOT translated structurally: the two signature functions
+   without their key statements, _oauth_normalized_netloc, _oauth_normalized_parameters and
+   OAuthMixin._oauth_request_parameters.  Gen/C48_equiv.v proves the regenerated texts equal to these,
+   so any edit of those functions is a broken obligation until the model is revisited.  Definitions only. *)
+From Coq Require Import String.
+Definition expected_rest_signature : string :=
 "def _oauth_signature(consumer_token: dict[str, Any], method: str, url: str, parameters: dict[str, Any]={}, token: dict[str, Any] | None=None) -> bytes:
     parts = urllib.parse.urlsplit(url)
     scheme, netloc, path = parts[:3]
@@ -20,11 +16,7 @@ Definition src_rest_signature : string :=
     base_string = '&'.join((_oauth_escape(e) for e in base_elems))
     hash = hmac.new(key, escape.utf8(base_string), hashlib.sha1)
     return binascii.b2a_base64(hash.digest())[:-1]"%string.
-Definition src_key10a : list sexp :=
-  [(EUtf8 (EQuote (ESecret Consumer) [126]%N)); (EUtf8 (EIfToken (EQuote (ESecret Token) [126]%N) EEmpty))].
-Definition src_key10a_sep : N :=
-  38%N.
-Definition src_rest_signature10a : string :=
+Definition expected_rest_signature10a : string :=
 "def _oauth10a_signature(consumer_token: dict[str, Any], method: str, url: str, parameters: dict[str, Any]={}, token: dict[str, Any] | None=None) -> bytes:
     parts = urllib.parse.urlsplit(url)
     scheme, netloc, path = parts[:3]
@@ -36,18 +28,18 @@ Definition src_rest_signature10a : string :=
     base_string = '&'.join((_oauth_escape(e) for e in base_elems))
     hash = hmac.new(key, escape.utf8(base_string), hashlib.sha1)
     return binascii.b2a_base64(hash.digest())[:-1]"%string.
-Definition src_normalized_netloc : string :=
+Definition expected_normalized_netloc : string :=
 "def _oauth_normalized_netloc(scheme: str, netloc: str) -> str:
     netloc = netloc.rpartition('@')[2].lower()
     host, sep, port = netloc.rpartition(':')
     if sep and (scheme.lower(), port) in (('http', '80'), ('https', '443')):
         netloc = host
     return netloc"%string.
-Definition src_normalized_parameters : string :=
+Definition expected_normalized_parameters : string :=
 "def _oauth_normalized_parameters(parameters: dict[str, Any]) -> str:
     pairs = sorted(((_oauth_escape(str(k)), _oauth_escape(str(v))) for k, v in parameters.items()))
     return '&'.join((f'{k}={v}' for k, v in pairs))"%string.
-Definition src_request_parameters : string :=
+Definition expected_request_parameters : string :=
 "def _oauth_request_parameters(self, url: str, access_token: dict[str, Any], parameters: dict[str, Any]={}, method: str='GET') -> dict[str, Any]:
     consumer_token = self._oauth_consumer_token()
     base_args = dict(oauth_consumer_key=escape.to_basestring(consumer_token['key']), oauth_token=escape.to_basestring(access_token['key']), oauth_signature_method='HMAC-SHA1', oauth_timestamp=str(int(time.time())), oauth_nonce=escape.to_basestring(binascii.b2a_hex(uuid.uuid4().bytes)), oauth_version='1.0')
